@@ -48,7 +48,33 @@ pub fn iso_case(ctx: &Ctx, input: &Input, want: Area) -> CaseResult {
         out.label("skip:input-invalid");
         return Ok(out);
     }
-    let b = match wal::roundtrip(&p.bytes, wal::Cfg::plain(), false) {
+    // variants of "the round trip": an eighth of the cases each judge the
+    // *second* emission of the same Module, an emission that records the code
+    // transform, and both
+    let variant = out.hash % 8;
+    let cfgv = wal::Cfg {
+        code_transform: variant == 2 || variant == 5,
+        ..wal::Cfg::plain()
+    };
+    let first = if variant == 1 || variant == 5 {
+        match wal::parse(&p.bytes, &cfgv.to_config()) {
+            Ok(Ok(mut m)) => match wal::emit(&mut m) {
+                Ok(_) => {
+                    out.label("variant:second-emission-judged");
+                    wal::emit(&mut m).map(Some)
+                }
+                Err(f) => Err(f),
+            },
+            Ok(Err(_)) => Ok(None),
+            Err(f) => Err(f),
+        }
+    } else {
+        wal::roundtrip(&p.bytes, cfgv, false)
+    };
+    if cfgv.code_transform {
+        out.label("variant:code-transform-recorded");
+    }
+    let b = match first {
         Ok(Some(b)) => b,
         Ok(None) => {
             out.label("skip:walrus-rejected(C05)");
@@ -507,8 +533,74 @@ fn check_instance(ctx: &Ctx, idx: usize) -> CaseResult {
     Ok(r)
 }
 
+/// body sizes on both sides of every length at which the size prefix of a
+/// code entry grows by a byte
+const BOUNDARY_BODY_SIZES: [usize; 13] = [126, 127, 128, 129, 16382, 16383, 16384, 16385, 16386, 2097150, 2097151, 2097152, 2097153];
+
+/// a module of three functions; the middle one has a body of exactly `size`
+/// bytes (one locals-count byte, `i32.const 0; drop` triples, `i32.const 64;
+/// drop` quadruples, `end`), which walrus emits with the same length
+fn boundary_body_module(size: usize) -> Vec<u8> {
+    let mut m = we::Module::new();
+    let mut t = we::TypeSection::new();
+    t.function([], []);
+    t.function([], [we::ValType::I32]);
+    m.section(&t);
+    let mut f = we::FunctionSection::new();
+    f.function(1);
+    f.function(0);
+    f.function(1);
+    m.section(&f);
+    let mut e = we::ExportSection::new();
+    e.export("a", we::ExportKind::Func, 0);
+    e.export("b", we::ExportKind::Func, 1);
+    e.export("c", we::ExportKind::Func, 2);
+    m.section(&e);
+    let mut code = we::CodeSection::new();
+    code.raw(&[0x00, 0x41, 0x07, 0x0b]);
+    let pad = size - 2;
+    // pad = 3a + 4b with b in 0..3
+    let b = (0..3).find(|b| pad >= 4 * b && (pad - 4 * b) % 3 == 0).unwrap();
+    let a = (pad - 4 * b) / 3;
+    let mut body = Vec::with_capacity(size);
+    body.push(0x00);
+    for _ in 0..b {
+        body.extend_from_slice(&[0x41, 0xc0, 0x00, 0x1a]);
+    }
+    for _ in 0..a {
+        body.extend_from_slice(&[0x41, 0x00, 0x1a]);
+    }
+    body.push(0x0b);
+    assert_eq!(body.len(), size);
+    code.raw(&body);
+    code.raw(&[0x00, 0x41, 0x09, 0x0b]);
+    m.section(&code);
+    m.finish()
+}
+
 pub fn check(ctx: &Ctx, input: &Input) -> CaseResult {
     if let Input::Json(v) = input {
+        if let Some(size) = v.get("c03c").and_then(|x| x.as_u64()) {
+            let size = size as usize;
+            if !(8..=4_000_000).contains(&size) {
+                return Ok(CaseOut::default());
+            }
+            let input = Input::Wasm {
+                origin: format!("c03c:body-of-{}-bytes", size),
+                bytes: boundary_body_module(size),
+            };
+            let mut r = iso_case(ctx, &input, Area::Code)?;
+            if let Some(why) = r.labels.iter().find(|l| l.starts_with("skip:")).cloned() {
+                if !why.contains("mismatch-in-other-area") {
+                    return Err(Failure::new(
+                        format!("c03c:{}", why),
+                        format!("a valid module whose middle function has a body of {} bytes was not round-tripped: {}", size, why),
+                    ));
+                }
+            }
+            r.label("c03c:body-size-boundary");
+            return Ok(r);
+        }
         if let Some(i) = v.get("c03a").and_then(|x| x.as_u64()) {
             if (i as usize) < instances().len() {
                 return check_instance(ctx, i as usize);
@@ -541,6 +633,9 @@ fn run(ctx: &Ctx) {
             "host_env": {"funcs": env::N_FUNCS, "tables": env::N_TABLES, "memories": env::N_MEMS, "globals": env::N_GLOBALS},
         }),
     );
+    // (c) body sizes at the size-prefix boundaries
+    let inputs: Vec<Input> = BOUNDARY_BODY_SIZES.iter().map(|s| Input::Json(json!({ "c03c": s }))).collect();
+    run_inputs(ctx, &inputs, &check);
     // (b)
     let plans = [GenPlan {
         gen: "full",
